@@ -176,6 +176,7 @@ def register(reg):
                       lambda k: Implies(And(has(new_dict.val, k), Not(isdict(get(new_dict.val, k)))), get(ref_dict.val, k) == get(new_dict.val, k)))},
         notes='dictionaries are tree-shaped (A-TREE) and finite; valid assignment = Compat(ref, new)'))
     register_more(reg)
+    register_setprms(reg)
 
 
 # =============================================================================================
@@ -338,3 +339,155 @@ def register_more(reg):
                    'assume_in_body': lambda E, i: [_named_step(smt.CURRENT_CTX, i)]}},
         canaries={'resets_everything': lambda result, which: ForallKey(
             lambda k: get(smt.CURRENT_CTX.ghost['globals'][GLOBAL].val, k) == get(Defaults, k))}))
+
+
+# =============================================================================================
+# core.set_prms: the YAML route = the same merge, applied to the global, with the content of the file
+# =============================================================================================
+from pyvc.values import Model, SBool, Unsupported
+from pyvc.lib import LIB, LIB_DOC
+
+FileContent = z3.Const('yaml_file_content', PVal)       # the nested dict the YAML file denotes
+
+
+class SPath(Model):
+    """pathlib.Path: ghost facts exists / is_file / suffix"""
+    pytype = 'Path'
+
+    def __init__(self, tag='pth'):
+        self.exists = z3.Bool(f'{tag}_exists')
+        self.is_file = z3.Bool(f'{tag}_is_file')
+        self.suffix = z3.String(f'{tag}_suffix')
+
+    def m_exists(self, ctx):
+        return SBool(self.exists)
+
+    def m_is_file(self, ctx):
+        return SBool(self.is_file)
+
+    def a_suffix(self, ctx):
+        return SStr(self.suffix)
+
+
+class SYaml(Model):
+    pytype = 'YAML'
+
+    def m_load(self, ctx, pth):
+        if not isinstance(pth, SPath):
+            raise Unsupported('YAML.load of this value')
+        ctx.assume(isdict(FileContent))
+        h = SPVal(FileContent, name='user_prms')
+        h.entry = FileContent
+        ctx.ghost.setdefault('yaml_loads', []).append((pth, h))
+        return h
+
+
+def _path_ctor(interp, args, kwargs):
+    (x,) = args
+    if isinstance(x, SPath):
+        return x
+    if isinstance(x, (SStr, str)):
+        p = SPath('pth')
+        interp.ctx.ghost['path_of_str'] = p
+        return p
+    raise Unsupported('Path(...) of this value')
+
+
+def _yaml_ctor(interp, args, kwargs):
+    if args or kwargs != {'typ': 'safe'}:
+        raise Unsupported('YAML(...) options')
+    return SYaml()
+
+
+LIB['pathlib.Path'] = _path_ctor
+LIB_DOC['pathlib.Path'] = 'Path(str): a path object; exists() / is_file() / suffix are facts about the file system (ghost values)'
+LIB['ruamel.yaml.YAML'] = _yaml_ctor
+LIB_DOC['ruamel.yaml.YAML'] = "YAML(typ='safe').load(path): the nested dict the file denotes, as a new object tree (A-TREE)"
+
+
+class PathParam(Spec):
+    def __init__(self, kind):
+        self.kind = kind
+
+    def make(self, name, ctx):
+        if self.kind == 'str':
+            return SStr(z3.String('pth_str'))
+        if self.kind == 'path':
+            return SPath('pth')
+        return 42          # neither a str nor a Path
+
+    def describe(self):
+        return {'str': 'str', 'path': 'pathlib.Path', 'other': 'an int'}[self.kind]
+
+
+def _the_path(pth):
+    ctx = smt.CURRENT_CTX
+    return pth if isinstance(pth, SPath) else ctx.ghost.get('path_of_str') or SPath('pth')
+
+
+def _setprms_raises(pth):
+    if not (isinstance(pth, (SPath, SStr)) or (z3.is_expr(pth) and pth.sort() == z3.StringSort())):
+        return True
+    p = _the_path(pth)
+    return Or(Not(p.exists), Not(p.is_file))
+
+
+def _setprms_requires(pth):
+    ctx = smt.CURRENT_CTX
+    G = ctx.ghost['globals'][GLOBAL]
+    if not getattr(ctx, '_compat_unfolded2', False):
+        ctx._compat_unfolded2 = True
+        unfold_compat(ctx, G.val, FileContent)
+    return {'valid_assignment_in_the_file': Compat(G.val, FileContent)}
+
+
+def _setprms_post(result, pth):
+    ctx = smt.CURRENT_CTX
+    G = ctx.ghost['globals'][GLOBAL]
+    G0 = ctx.ghost['globals_at_entry'][GLOBAL]
+    p = _the_path(pth)
+    warns = [e for e in ctx.effects if e[0] == 'WARN']
+    return {
+        # the YAML route is the same merge as the other routes, applied to the global in place
+        'global_adjusted_by_the_file_content': IsAdj(G.val, G0.entry, FileContent),
+        'global_is_still_the_same_object': G is G0,
+        'one_file_read': len(ctx.ghost.get('yaml_loads', [])) == 1 and ctx.ghost['yaml_loads'][0][0] is p,
+        'suffix_warning_only': (len(warns) <= 1) and all(str(w[-1]).endswith('AmpycloudWarning') for w in warns),
+        'warns_iff_suffix_is_not_yml': (p.suffix != z3.StringVal('.yml')) if warns else (p.suffix == z3.StringVal('.yml'))}
+
+
+# ---- IsAdj determines its first argument (up to content): the three routes give the same snapshot ------------------------------
+Equiv = z3.Function('Equiv', PVal, PVal, z3.BoolSort())     # same content: both plain and equal, or both dicts with equivalent entries
+
+
+def _merge_function_step():
+    """structural induction over the assignment n (finite trees, A-TREE): if f1 and f2 are both `r adjusted by n`, they have the same
+    content.  Induction hypothesis: the statement for the nested dictionaries of n."""
+    f1, f2, r, n = (smt.fresh(x, PVal) for x in ('f1', 'f2', 'r', 'n'))
+    k = smt.fresh('k', dm.K)
+    hy = [IsAdj(f1, r, n), IsAdj(f2, r, n),
+          isdict(f1), isdict(f2), adj_key_clause(f1, r, n, k), adj_key_clause(f2, r, n, k),        # unfolding of the two hypotheses at k
+          # induction hypothesis at the children under k
+          Implies(And(IsAdj(get(f1, k), get(r, k), get(n, k)), IsAdj(get(f2, k), get(r, k), get(n, k))), Equiv(get(f1, k), get(f2, k))),
+          # Equiv is reflexive (definition of Equiv, by the same induction)
+          Equiv(get(n, k), get(n, k)), Equiv(get(r, k), get(r, k))]
+    # goal: the clause of the definition of Equiv(f1, f2) at the arbitrary key k
+    goal = And(has(f1, k) == has(f2, k), Equiv(get(f1, k), get(f2, k)))
+    return hy, goal
+
+
+def register_setprms(reg):
+    from pyvc.contracts import Lemma
+    reg.add_lemma(Lemma('prop.C12.merge_is_a_function', step=_merge_function_step, properties=('C12',),
+                        doc=('IsAdj(f1, r, n) and IsAdj(f2, r, n) imply that f1 and f2 have the same content (key by key; structural induction '
+                             'over n): per-call dict, edited global and YAML file with the same effective values give the same snapshot')))
+    reg.add(Contract(
+        'ampycloud.core.set_prms', properties=('C12',),
+        cases=[('pth=str', {'pth': PathParam('str')}), ('pth=Path', {'pth': PathParam('path')}), ('pth=other', {'pth': PathParam('other')})],
+        globals_spec={GLOBAL: DictParam('global')},
+        requires=_setprms_requires,
+        raises={'AmpycloudError': _setprms_raises},
+        ensures=_setprms_post,
+        canaries={'global_untouched': lambda result, pth: ForallKey(lambda k: get(smt.CURRENT_CTX.ghost['globals'][GLOBAL].val, k) ==
+                                                                   get(smt.CURRENT_CTX.ghost['globals_at_entry'][GLOBAL].entry, k))},
+        notes='file system and YAML parser are ghost values (A-LIB); the content of the file is an arbitrary valid assignment'))
